@@ -57,6 +57,25 @@ pub struct PairJob {
     pub io: jsonrpc_core::IoHandler,
     pub request: String,
     pub seed: u64,
+    /// instead of an RPC request: a peer message handled by a second protocol handler
+    pub deliver: Option<PairDeliver>,
+}
+pub struct PairDeliver {
+    pub handler: Box<dyn ckb_network::CKBProtocolHandler + Send>,
+    pub nc: std::sync::Arc<dyn ckb_network::CKBProtocolContext + Sync>,
+    pub peer: ckb_network::PeerIndex,
+    pub data: ckb_network::bytes::Bytes,
+}
+impl PairJob {
+    fn run(self) -> String {
+        match self.deliver {
+            Some(mut d) => {
+                crate::client::run_once(d.handler.received(d.nc, d.peer, d.data));
+                "delivered".to_string()
+            }
+            None => self.io.handle_request_sync(&self.request).unwrap_or_default(),
+        }
+    }
 }
 pub enum PairState {
     /// the paired operation finished while the first one was parked: it ran inside it
@@ -113,9 +132,7 @@ pub fn spawn_parked_reader(
         .spawn(move || {
             entropy::install(job.seed);
             READER_PARK.with(|p| *p.borrow_mut() = Some((park_at, etx.clone(), rrx)));
-            let r = std::panic::catch_unwind(std::panic::AssertUnwindSafe(|| {
-                job.io.handle_request_sync(&job.request).unwrap_or_default()
-            }));
+            let r = std::panic::catch_unwind(std::panic::AssertUnwindSafe(|| job.run()));
             READER_PARK.with(|p| *p.borrow_mut() = None);
             entropy::uninstall();
             let _ = etx.send(ReaderEvent::Done(match r {
@@ -158,9 +175,7 @@ pub fn spawn_pair(job: PairJob) -> PairRx {
         .stack_size(16 << 20)
         .spawn(move || {
             entropy::install(job.seed);
-            let r = std::panic::catch_unwind(std::panic::AssertUnwindSafe(|| {
-                job.io.handle_request_sync(&job.request).unwrap_or_default()
-            }));
+            let r = std::panic::catch_unwind(std::panic::AssertUnwindSafe(|| job.run()));
             entropy::uninstall();
             let _ = tx.send(match r {
                 Ok(s) => s,
@@ -348,7 +363,7 @@ fn flag_u64(plan: &Plan, k: &str) -> Option<u64> {
     plan.flags.iter().find_map(|f| f.strip_prefix(k).and_then(|v| v.parse::<u64>().ok()))
 }
 
-pub const PAIR_OPS: [&str; 9] = [
+pub const PAIR_OPS: [&str; 13] = [
     "set_scripts(all,[lock0@0])",
     "set_scripts(partial,[lock1@initial/3])",
     "set_scripts(delete,[lock0])",
@@ -358,6 +373,10 @@ pub const PAIR_OPS: [&str; 9] = [
     "get_cells(lock0)",
     "set_scripts(partial,[lock0@initial/2+1,lock1@0])",
     "get_transactions(lock0)",
+    "handler: SendLastState from a connected peer (light-client protocol)",
+    "handler: next BlockFilters batch from a proven peer (filter protocol)",
+    "handler: SendBlock of a matched block (sync protocol)",
+    "handler: SendLastStateProof answering an outstanding request (light-client protocol)",
 ];
 
 /// C17: one case = (history, write boundary K of the operation A that issues it, operation B).
@@ -367,7 +386,7 @@ pub const PAIR_OPS: [&str; 9] = [
 /// both threads must finish.
 pub fn execute_pair(plan: &Plan, verbose: bool) -> Outcome {
     let slot = flag_u64(plan, "pair_slot=").unwrap_or(0);
-    let op = flag_u64(plan, "pair_op=").unwrap_or(0) % 9;
+    let op = flag_u64(plan, "pair_op=").unwrap_or(0) % 13;
     let mut bp = plan.clone();
     bp.flags.retain(|f| !f.starts_with("pair_"));
     bp.flags.push("record_writes".into());
@@ -418,6 +437,14 @@ pub fn execute_pair(plan: &Plan, verbose: bool) -> Outcome {
     }
     let mut stats: BTreeMap<String, u64> = BTreeMap::new();
     stats.insert("probe.c17.cases".into(), 1);
+    for k in ["probe.c17.no_such_message_now", "probe.c17.same_protocol_not_paired"] {
+        if before.stats.contains_key(k) {
+            stats.insert(k.into(), 1);
+        }
+    }
+    if op >= 9 && before.snapshot.is_some() {
+        stats.insert("probe.c17.handler_against_handler".into(), 1);
+    }
     if out.stats.contains_key("probe.c17.paused_before_taking_the_lock") {
         stats.insert("probe.c17.paused_before_taking_the_lock".into(), 1);
     }
